@@ -451,6 +451,8 @@ package stick
 // C08: the filtered text is written once, to the writer that was current on entry; the body wrote into a private buffer
 //@   at "io.WriteString(prevBuf, val)" dest: prevBuf == old(s.out) && rbuflen(ref(prevBuf)) == old(rbuflen(ref(s.out))) && rbufdata(ref(prevBuf)) == old(rbufdata(ref(s.out)))
 //@   at "s.walk(node.Body)" private: fresh(ref(s.out)) && buflen(buf) == 0
+// each filter of the chain receives the result of the one before it
+//@   at "f(s, val)" chain: true
 //@   asserts delivered: err == nil ==> rbuflen(ref(old(s.out))) == old(rbuflen(ref(s.out))) + len(val)
 //@   propagates
 //@   ensures wfail: wfail() && !old(wfail()) ==> err != nil
@@ -577,7 +579,7 @@ package stick
 
 //@ func stick.(*state).evalFunction
 // C05: a registered function is called once, with one evaluated value per argument expression
-//@   at "fn(s, args...)" call: len(args) == len(eargs) && fn != nil
+//@   at "fn(s, args...)" call: len(args) == len(eargs) && fn != nil && !old(in(s.macros, fnName))
 // C11: a from-imported macro reaches callMacro the same way
 //@   at "s.callMacro(macroDef{macro}, args...)" from: len(args) == len(eargs) && macro != nil
 //@   propagates
